@@ -11,6 +11,10 @@
 //! For each model the harness
 //!  * snapshots every constant of every (sub)graph through `Model::verif_graph` (bytes) and every
 //!    buffer it lends to a run;
+//!  * builds history groups (one set of intermediate outputs requested in different ORDERS plus
+//!    subsets, identical inputs - a cache hit may run the plan a differently ordered request built)
+//!    around temporaries with two in-place capable consumers, one a Div/Sub/Pow/Mul/Add with a
+//!    one-element constant of rank 0..3 and inexact quotients;
 //!  * runs a random sequence of requests (varying input values, varying output sets, inputs passed
 //!    owned or borrowed, intermediate values supplied as inputs, requests that fail in the middle
 //!    of the plan, repeated requests, default thread pool and a 1-thread pool);
@@ -62,6 +66,9 @@ struct Ctx {
     n_if: u32,
     n_loop: u32,
     max_depth: u32,
+    /// top-level (v, p, q): temp `v` with two in-place capable consumers `p = unary(v)`,
+    /// `q = binary(v, one-element constant)`
+    fanouts: Vec<(String, String, String)>,
 }
 
 impl Ctx {
@@ -147,6 +154,65 @@ fn gen_body(
         vis.push(VInfo { name, shape: Some(shape), class: Class::Const });
     }
     for _ in 0..n_ops {
+        if rng.chance(1, 5) {
+            // A temporary with TWO in-place capable consumers, one of them a binary operator whose
+            // other operand is a one-element constant of rank 0..3 (equal / lower / higher rank than
+            // the temporary) with a value that makes quotients / products inexact. Which consumer
+            // runs in place depends on the plan order, i.e. on the order outputs are requested in
+            // by whichever request built the cached plan.
+            let temps: Vec<VInfo> = vis.iter().filter(|v| v.class == Class::Temp).cloned().collect();
+            let v = if !temps.is_empty() && rng.chance(1, 2) {
+                temps[rng.usize_below(temps.len())].clone()
+            } else {
+                let x = pick_val(rng, vis).clone();
+                let y = pick_val(rng, vis).clone();
+                let vn = cx.fresh("v");
+                nodes.push(ONode::new(*rng.pick(&["Add", "Mul", "Sub"]), &cx.fresh("n"), &[&x.name, &y.name], &[&vn]));
+                let vi = VInfo { name: vn, shape: broadcast(&x.shape, &y.shape), class: Class::Temp };
+                vis.push(vi.clone());
+                produced.push(vi.clone());
+                vi
+            };
+            let bop = *rng.pick(&["Div", "Div", "Sub", "Pow", "Mul", "Add"]);
+            let val = if bop == "Pow" {
+                *rng.pick(&[2.0f32, 3.0, 0.5])
+            } else {
+                *rng.pick(&[3.0f32, 7.0, 0.1, 1.0 / 3.0, -3.0, 10.0, 0.7, 1.1, 49.0])
+            };
+            let rank = rng.usize_below(4);
+            let sshape = vec![1usize; rank];
+            let sc = cx.fresh("s");
+            inits.push(OTensor::f32s(&sc, &vec![1i64; rank], &[val]));
+            vis.push(VInfo { name: sc.clone(), shape: Some(sshape.clone()), class: Class::Const });
+            let q = cx.fresh("v");
+            let pn = cx.fresh("v");
+            let scalar_first = bop != "Pow" && rng.chance(1, 4);
+            let qn = if scalar_first {
+                ONode::new(bop, &cx.fresh("n"), &[&sc, &v.name], &[&q])
+            } else {
+                ONode::new(bop, &cx.fresh("n"), &[&v.name, &sc], &[&q])
+            };
+            let uop = *rng.pick(&UNARY);
+            let pnode = ONode::new(uop, &cx.fresh("n"), &[&v.name], &[&pn]);
+            if rng.chance(1, 2) {
+                nodes.push(qn);
+                nodes.push(pnode);
+            } else {
+                nodes.push(pnode);
+                nodes.push(qn);
+            }
+            out.bucket(&format!("fanout.{bop}.rank{rank}{}", if scalar_first { ".scalar_first" } else { "" }));
+            let qi = VInfo { name: q.clone(), shape: broadcast(&v.shape, &Some(sshape)), class: Class::Temp };
+            let pi = VInfo { name: pn.clone(), shape: v.shape.clone(), class: Class::Temp };
+            vis.push(qi.clone());
+            vis.push(pi.clone());
+            produced.push(qi);
+            produced.push(pi);
+            if depth == 0 {
+                cx.fanouts.push((v.name.clone(), pn, q));
+            }
+            continue;
+        }
         let nm = cx.fresh("n");
         let o = cx.fresh("v");
         let k = rng.below(100);
@@ -354,6 +420,7 @@ struct GenModel {
     n_if: u32,
     n_loop: u32,
     max_depth: u32,
+    fanouts: Vec<(String, String, String)>,
 }
 
 fn gen_model(rng: &mut Rng, out: &mut Out) -> GenModel {
@@ -365,6 +432,7 @@ fn gen_model(rng: &mut Rng, out: &mut Out) -> GenModel {
         n_if: 0,
         n_loop: 0,
         max_depth: 0,
+        fanouts: vec![],
     };
     if rng.chance(1, 4) {
         cx.b = cx.a; // square: MatMul weights join the broadcast family
@@ -424,6 +492,7 @@ fn gen_model(rng: &mut Rng, out: &mut Out) -> GenModel {
         n_if: cx.n_if,
         n_loop: cx.n_loop,
         max_depth: cx.max_depth,
+        fanouts: cx.fanouts,
     }
 }
 
@@ -912,6 +981,59 @@ fn gen_request(rng: &mut Rng, gm: &GenModel, model: &Model, out: &mut Out) -> Op
     Some(Request { ins, outs, out_decl, kind })
 }
 
+/// A history group: one set of 2-3 intermediate outputs requested in different ORDERS, plus
+/// subsets, all with identical inputs. `CachedPlan::matches` ignores the order, so a request may
+/// be executed with the plan a differently ordered earlier request created.
+fn history_group(rng: &mut Rng, gm: &GenModel, model: &Model, base: &Request, out: &mut Out) -> Vec<Request> {
+    let mut set: Vec<(String, NodeId)> = vec![];
+    let mut add = |set: &mut Vec<(String, NodeId)>, name: &str| {
+        if let Some(id) = model.find_node(name) {
+            if !set.iter().any(|e| e.1 == id) {
+                set.push((name.to_string(), id));
+            }
+        }
+    };
+    if !gm.fanouts.is_empty() && rng.chance(4, 5) {
+        let f = &gm.fanouts[rng.usize_below(gm.fanouts.len())];
+        add(&mut set, &f.2);
+        add(&mut set, &f.1);
+        if rng.chance(1, 4) {
+            add(&mut set, &f.0);
+        }
+        out.bucket("hist.fanout");
+    }
+    let temps: Vec<&VInfo> = gm.vals.iter().filter(|v| v.class == Class::Temp).collect();
+    let want = 2 + rng.usize_below(2);
+    for _ in 0..8 {
+        if set.len() >= want || temps.is_empty() {
+            break;
+        }
+        add(&mut set, &temps[rng.usize_below(temps.len())].name);
+    }
+    if set.len() < 2 {
+        return vec![];
+    }
+    let mut orders: Vec<Vec<(String, NodeId)>> = vec![set.clone()];
+    let mut rev = set.clone();
+    rev.reverse();
+    orders.push(rev);
+    if set.len() > 2 {
+        let mut rot = set.clone();
+        rot.rotate_left(1);
+        orders.push(rot);
+    }
+    for e in &set {
+        orders.push(vec![e.clone()]);
+    }
+    if set.len() > 2 {
+        orders.push(vec![set[1].clone(), set[0].clone()]);
+    }
+    orders
+        .into_iter()
+        .map(|outs| Request { ins: base.ins.clone(), out_decl: vec![None; outs.len()], outs, kind: "hist" })
+        .collect()
+}
+
 struct Lent {
     f: Vec<(usize, RTensor<f32>)>,
     i: Vec<(usize, RTensor<i32>)>,
@@ -926,6 +1048,16 @@ enum Outcome {
 }
 
 impl Outcome {
+    /// Equality as the property sees it: same output bits, or both fail. WHICH operator of a
+    /// failing run reports the error first depends on the plan order (a cache hit may use the plan
+    /// of a differently ordered earlier request: `c02_error_depends_on_order`), so error messages
+    /// are not compared; panics are compared by message.
+    fn same(&self, other: &Outcome) -> bool {
+        match (self, other) {
+            (Outcome::Err(_), Outcome::Err(_)) => true,
+            (a, b) => a == b,
+        }
+    }
     fn tag(&self) -> &'static str {
         match self {
             Outcome::Ok(_) => "ok",
@@ -996,10 +1128,11 @@ fn main() {
     hcommon::quiet_panics();
     let mut rng = Rng::new(args.seed);
     let mut out = Out::new(&args.out);
-    let n_models = if args.thorough { 25000 } else { 1000 };
+    let n_models = if args.thorough { 15000 } else { 600 };
     let one_thread = Arc::new(ThreadPool::with_num_threads(1));
     let mut total_runs = 0u64;
     let mut xpool_diff = 0u64;
+    let mut err_notes = 0;
     for mi in 0..n_models {
         let gm = gen_model(&mut rng, &mut out);
         let model = match load(&gm) {
@@ -1026,10 +1159,26 @@ fn main() {
                 reqs.push(r);
             }
         }
+        // history groups: same output set in different orders, interleaved with subsets
+        for _ in 0..1 + rng.usize_below(2) {
+            let mut base = None;
+            for _ in 0..5 {
+                if let Some(r) = gen_request(&mut rng, &gm, &model, &mut out) {
+                    if r.kind == "plain" {
+                        base = Some(r);
+                        break;
+                    }
+                }
+            }
+            if let Some(b) = base {
+                reqs.extend(history_group(&mut rng, &gm, &model, &b, &mut out));
+            }
+        }
         if reqs.is_empty() {
             continue;
         }
-        let n_runs = reqs.len() + 2 + rng.usize_below(6);
+        rng.shuffle(&mut reqs);
+        let n_runs = reqs.len() * 2 + rng.usize_below(6);
         let mut first: Vec<Option<Outcome>> = vec![None; reqs.len()];
         let mut first_1t: Vec<Option<Outcome>> = vec![None; reqs.len()];
         for run_i in 0..n_runs {
@@ -1059,13 +1208,22 @@ fn main() {
                 None => *slot = Some(outcome.clone()),
                 Some(prev) => {
                     out.bucket("repeat");
-                    if *prev != outcome {
+                    if let (Outcome::Err(a), Outcome::Err(b)) = (&*prev, &outcome) {
+                        if a != b {
+                            out.bucket("err_message_differs");
+                            if err_notes < 3 {
+                                err_notes += 1;
+                                out.note(&format!("same request, different failing operator: '{a}' vs '{b}'"));
+                            }
+                        }
+                    }
+                    if !prev.same(&outcome) {
                         fails.push(format!("repeated request {ri} gave a different result ({} vs {})", prev.tag(), outcome.tag()));
                     }
                 }
             }
             if let (Some(a), Some(b)) = (&first[ri], &first_1t[ri]) {
-                if a != b {
+                if !a.same(b) {
                     xpool_diff += 1;
                 }
             }
@@ -1132,9 +1290,27 @@ fn main() {
             }
             let rq = &rq2;
             let (o, _, mut fails) = run_request(&fresh, rq, None, false);
+            if let Some(prev1) = &first_1t[ri] {
+                // and on a second fresh copy with the 1-thread pool
+                if let Ok(fresh1) = load(&gm) {
+                    if let Some(rq3) = rebind(rq, &fresh1) {
+                        let (o1, _, _) = run_request(&fresh1, &rq3, Some(one_thread.clone()), false);
+                        out.bucket("fresh_compare_1t");
+                        if !prev1.same(&o1) {
+                            fails.push(format!(
+                                "request {ri} ({}) [1-thread pool] in the sequence differs from the same request on a fresh model ({} vs {}); outputs {:?}",
+                                rq.kind,
+                                prev1.tag(),
+                                o1.tag(),
+                                rq.outs.iter().map(|o| o.0.clone()).collect::<Vec<_>>()
+                            ));
+                        }
+                    }
+                }
+            }
             if let Some(prev) = &first[ri] {
                 out.bucket("fresh_compare");
-                if *prev != o && std::env::var("C25_DEBUG").is_ok() {
+                if !prev.same(&o) && std::env::var("C25_DEBUG").is_ok() {
                     eprintln!("model {mi} request {ri}: optimize={} prepack={}", gm.optimize, gm.prepack);
                     eprintln!("model bytes hex: {}", gm.bytes.iter().map(|b| format!("{b:02x}")).collect::<String>());
                     for i in &rq.ins {
@@ -1149,11 +1325,13 @@ fn main() {
                         }
                     }
                 }
-                if *prev != o {
+                if !prev.same(&o) {
                     fails.push(format!(
-                        "request {ri} in the sequence differs from the same request on a fresh model ({} vs {})",
+                        "request {ri} ({}) in the sequence differs from the same request on a fresh model ({} vs {}); outputs {:?}",
+                        rq.kind,
                         prev.tag(),
-                        o.tag()
+                        o.tag(),
+                        rq.outs.iter().map(|o| o.0.clone()).collect::<Vec<_>>()
                     ));
                 }
             }
